@@ -15,7 +15,7 @@ fn noop_waker() -> Waker {
 }
 
 #[derive(Default)]
-struct Flags { fail_read: AtomicBool, fail_write: AtomicBool, dropped: AtomicBool, budget: std::sync::atomic::AtomicIsize, waker: std::sync::Mutex<Option<Waker>>, read_waker: std::sync::Mutex<Option<Waker>> }
+struct Flags { fail_read: AtomicBool, fail_write: AtomicBool, dropped: AtomicBool, budget: std::sync::atomic::AtomicIsize, waker: std::sync::Mutex<Option<Waker>>, read_waker: std::sync::Mutex<Option<Waker>>, max_write: std::sync::atomic::AtomicUsize }
 struct Faulty { inner: DuplexStream, flags: Arc<Flags> }
 impl Drop for Faulty { fn drop(&mut self) { self.flags.dropped.store(true, Ordering::SeqCst); } }
 impl AsyncRead for Faulty {
@@ -32,7 +32,9 @@ impl AsyncWrite for Faulty {
         if self.flags.fail_write.load(Ordering::SeqCst) { return Poll::Ready(Err(io::ErrorKind::BrokenPipe.into())); }
         let b = self.flags.budget.load(Ordering::SeqCst);
         if b == 0 { *self.flags.waker.lock().unwrap() = Some(cx.waker().clone()); return Poll::Pending; }
-        let n = if b < 0 { buf.len() } else { buf.len().min(b as usize) };
+        let mut n = if b < 0 { buf.len() } else { buf.len().min(b as usize) };
+        let cap = self.flags.max_write.load(Ordering::SeqCst);          // per-call cap (short writes are legal)
+        if cap > 0 { n = n.min(cap); }
         let r = Pin::new(&mut self.inner).poll_write(cx, &buf[..n]);
         if let Poll::Ready(Ok(k)) = &r { if b > 0 { self.flags.budget.fetch_sub(*k as isize, Ordering::SeqCst); } }
         r
@@ -47,7 +49,7 @@ struct Server {
     buf: Vec<u8>, idle: bool, pending: Vec<Vec<u8>>, lines: Vec<Vec<u8>>, violations: Vec<String>, changed: Vec<Vec<u8>>, in_list: Option<Vec<Vec<u8>>>,
     outbox: VecDeque<u8>, password: String, closed: bool, multi_changed: bool,
     art: Option<(Vec<u8>, usize, usize, bool)>, art_requests: Vec<Vec<u8>>, known: Option<Vec<Vec<u8>>>,
-    art_limit2: usize, art_cutlf: bool, art_late_err: bool, barriers: Vec<usize>, sent_total: usize, ack_next_idle: bool, idle_acked: bool,
+    art_limit2: usize, art_cutlf: bool, art_late_err: bool, art_lie: bool, barriers: Vec<usize>, sent_total: usize, ack_next_idle: bool, idle_acked: bool,
 }
 impl Server {
     fn send(&mut self, d: &[u8]) { self.outbox.extend(d.iter().copied()); self.sent_total += d.len(); }
@@ -80,7 +82,7 @@ impl Server {
             self.violations.push(format!("{:?} is not a request any caller issued (torn or merged request lines)", String::from_utf8_lossy(&line))); } }
         if undelivered && self.in_list.is_none() && line != b"command_list_end" { self.violations.push(format!("request {:?} written before the previous reply was consumed", String::from_utf8_lossy(&line))); }
         if line.starts_with(b"password") {
-            match self.password.as_str() { "ACK" => self.send(b"ACK [3@0] {password} incorrect password\n"), "listACK" => self.send(b"list_OK\nACK [3@1] {password} incorrect password\n"), "garbage" => self.send(b"\x01\x02\n"), "close" => self.closed = true, _ => self.send(b"OK\n") }
+            match self.password.as_str() { "ACK" => self.send(b"ACK [3@0] {password} incorrect password\n"), "ACKempty" => self.send(b"ACK [3@0] {password} \n"), "ACKperm" => self.send(b"ACK [4@0] {} you don't have permission for \"password\"\n"), "listACK" => self.send(b"list_OK\nACK [3@1] {password} incorrect password\n"), "garbage" => self.send(b"\x01\x02\n"), "close" => self.closed = true, _ => self.send(b"OK\n") }
             return;
         }
         if line == b"command_list_ok_begin" { self.in_list = Some(Vec::new()); return; }
@@ -110,7 +112,7 @@ impl Server {
                 } else if source == 3 { self.send(b"OK\n"); return; }
                 let limit = if off == 0 || self.art_limit2 == 0 { limit } else { self.art_limit2 };
                 let chunk = &pic[off.min(pic.len())..(off + limit).min(pic.len())];
-                let mut out = format!("size: {}\n", pic.len()).into_bytes();
+                let mut out = format!("size: {}\n", if self.art_lie { 1 } else { pic.len() }).into_bytes();
                 if mime && embedded { out.extend_from_slice(b"type: image/png\n"); }
                 out.extend_from_slice(format!("binary: {}\n", chunk.len()).as_bytes());
                 if self.art_cutlf { self.barriers.push(self.sent_total + out.len() + chunk.len()); }
@@ -186,6 +188,7 @@ pub fn client(a: &[String]) {
             server.borrow_mut().art_limit2 = p.get(4).map(|x| x.parse().unwrap()).unwrap_or(0);
             server.borrow_mut().art_cutlf = p.get(5).map(|x| *x == "1").unwrap_or(false);
             server.borrow_mut().art_late_err = p.get(6).map(|x| *x == "1").unwrap_or(false);
+            server.borrow_mut().art_lie = p.get(7).map(|x| *x == "1").unwrap_or(false);
         }
         {
             let mut k: Vec<Vec<u8>> = vec![b"command_list_ok_begin".to_vec(), b"command_list_end".to_vec()];
@@ -193,6 +196,7 @@ pub fn client(a: &[String]) {
             server.borrow_mut().known = Some(k);
         }
         let flags = Arc::new(Flags::default());
+        if args[4..].iter().any(|s| s == "slowconnect") { flags.max_write.store(1, Ordering::SeqCst); }
         flags.budget.store(-1, Ordering::SeqCst);
         let (cl, srv) = tokio::io::duplex(1 << 16);
         let (mut srv_r, srv_w) = tokio::io::split(srv);
@@ -285,6 +289,7 @@ pub fn client(a: &[String]) {
             else if let Some(n) = st.strip_prefix("change:") { server.borrow_mut().change(n.as_bytes()); change_n += 1; }
             else if st == "tick" { tokio::time::advance(Duration::from_millis(150)).await; pump!(); }
             else if st == "longtick" { tokio::time::advance(Duration::from_secs(60)).await; pump!(); }
+            else if st == "slowconnect" { }
             else if st == "slowwrite" { flags.budget.store(1, Ordering::SeqCst); }
             else if st == "unblock" { flags.budget.store(-1, Ordering::SeqCst); if let Some(w) = flags.waker.lock().unwrap().take() { w.wake(); } }
             else if st == "dropclient" { if !clients.is_empty() { clients.remove(0); } }
